@@ -63,6 +63,10 @@ structure PM where
   /-- `machine._ident.current == get_ident()`: the calling thread is inside an event of this locked
       machine (it holds the contexts).  False at rest; true for a snapshot taken from a callback. -/
   identHeld : Bool := false
+  /-- any FURTHER identity-keyed table the class keeps (registries such as a set of `id(model)`),
+      abstracted to its keys.  The predefined classes keep none (`[]`; the harness discovers such tables
+      generically on the live objects); the field says what pickling does to one that nobody re-keys. -/
+  idtabs : List (List Nat) := []
   deriving DecidableEq, Repr, Inhabited
 
 def PM.stateOf (M : PM) (m : Nat) : Nat := (alookup m M.mstate).getD 0
@@ -85,6 +89,8 @@ structure Dict where
   qstore : Option (Tab (List Nat))
   /-- `IdentManager.current == get_ident()` as stored in the pickle -/
   identHeld : Bool
+  /-- further identity-keyed tables: containers of integers, pickled by value -/
+  idtabs : List (List Nat)
   deriving DecidableEq, Repr, Inhabited
 
 /-- no `__getstate__`: pickle takes `__dict__` as it is -/
@@ -93,7 +99,7 @@ def defaultGetstate (M : PM) : Dict :=
     graphs := some M.graphs, qdict := some M.qdict, qstore := none,
     -- `IdentManager.__getstate__` (as repaired, cf88f30) returns `{'current': 0}`: the thread that holds the
     -- contexts while the snapshot is taken means nothing to the copy
-    identHeld := false }
+    identHeld := false, idtabs := M.idtabs }
 
 /-- `LockedMachine.__getstate__`: drop the id-keyed map, store the contexts keyed by model object -/
 def lockedGetstate (M : PM) : Dict :=
@@ -128,12 +134,13 @@ def transport (ρ : Nat → Nat) (d : Dict) : Dict :=
     graphs := d.graphs
     qdict := d.qdict
     qstore := d.qstore.map fun t => t.map fun e => (ρ e.1, e.2)
-    identHeld := d.identHeld }
+    identHeld := d.identHeld
+    idtabs := d.idtabs }
 
 /-- no `__setstate__`: `__dict__.update(state)` -/
 def defaultSetstate (d : Dict) : PM :=
   { models := d.models, mstate := d.mstate, mctx := d.mctx, ctx := d.ctx.getD [],
-    graphs := d.graphs.getD [], qdict := d.qdict.getD [], identHeld := d.identHeld }
+    graphs := d.graphs.getD [], qdict := d.qdict.getD [], identHeld := d.identHeld, idtabs := d.idtabs }
 
 /-- `LockedMachine.__setstate__`: a new map, one entry per model under its *new* id, taken from the
     store (which `__getstate__` filled for exactly these models). -/
@@ -167,7 +174,8 @@ def ren (ρ : Nat → Nat) (M : PM) : PM :=
     ctx := M.ctx.map fun e => (ρ e.1, e.2.map ρ)
     graphs := M.graphs.map fun e => (ρ e.1, e.2)
     qdict := M.qdict.map fun e => (ρ e.1, e.2)
-    identHeld := M.identHeld }
+    identHeld := M.identHeld
+    idtabs := M.idtabs.map fun t => t.map ρ }
 
 /-- the same machine at rest: nobody is inside an event -/
 def quiesce (M : PM) : PM := { M with identHeld := false }
@@ -183,6 +191,9 @@ inductive Ev
   | trigger (ep m ev : Nat)
   /-- `add_states` / `add_transition` on the machine: graph machines rebuild every model's graph -/
   | regen
+  /-- `add_model(m)` for a model that is registered already (`if mod not in self.models:` — membership in the
+      list of model objects, no identity table involved): no effect -/
+  | readd (m : Nat)
   deriving DecidableEq, Repr, Inhabited
 
 inductive Obs
@@ -192,6 +203,8 @@ inductive Obs
   | blocked (l : Nat)
   | keyError (k : Nat)
   | regen
+  /-- number of registered models after the call -/
+  | members (n : Nat)
   deriving DecidableEq, Repr, Inhabited
 
 /-- `LockedEvent.trigger` enters `model_context_map[id(model)]`; with `NestedEvent` (the locked
@@ -242,6 +255,7 @@ def regenGraphs (M : PM) : List Nat → Tab Nat → Tab Nat
 def step (k : Kind) (δ : Delta) (held : List Nat) (M : PM) : Ev → PM × Obs
   | .trigger ep m ev => trigger k δ held M ep m ev
   | .regen => (if k.graph then { M with graphs := regenGraphs M M.models M.graphs } else M, .regen)
+  | .readd _ => (M, .members M.models.length)
 
 def run (k : Kind) (δ : Delta) (held : List Nat) : PM → List Ev → PM × List Obs
   | M, [] => (M, [])
@@ -253,17 +267,20 @@ def run (k : Kind) (δ : Delta) (held : List Nat) : PM → List Ev → PM × Lis
 def renEv (ρ : Nat → Nat) : Ev → Ev
   | .trigger ep m ev => .trigger ep (ρ m) ev
   | .regen => .regen
+  | .readd m => .readd (ρ m)
 
 def renObs (ρ : Nat → Nat) : Obs → Obs
   | .done cs b st => .done (cs.map ρ) b st
   | .blocked l => .blocked (ρ l)
   | .keyError k => .keyError (ρ k)
   | .regen => .regen
+  | .members n => .members n
 
 /-- the model the event is for is registered with the machine -/
 def Ev.onModels (models : List Nat) : Ev → Prop
   | .trigger _ m _ => m ∈ models
   | .regen => True
+  | .readd m => m ∈ models
 
 /-- every context object a machine can enter -/
 def lockIds (M : PM) : List Nat := M.mctx ++ M.ctx.flatMap (·.2)
